@@ -904,4 +904,20 @@ Proof.
   intros Hops E. eapply Forall_nth_error; [apply srun_SI; [constructor|eassumption]|exact E].
 Qed.
 
+(* consequence: the averaged final state is the last block of the averaged states *)
+Lemma reached_final_is_last_block ops i x vs vf :
+  Forall sop_ok ops -> nth_error (srun d [] ops) i = Some x -> ss = true ->
+  snd (average_states x) = SVal vs -> snd (average_final d x) = SVal vf ->
+  vf = lastblock d vs.
+Proof.
+  intros Hops E Ess Hs Hf.
+  pose proof (reached_SI ops i x Hops E) as Ix.
+  destruct (reached_states ops i x Hops E) as (Vs & _).
+  destruct (reached_final ops i x Hops E) as (Vf & _).
+  destruct (Vs vs Hs) as [Ls Ns]. destruct (Vf vf Hf) as [Lf Nf].
+  apply vec_ext.
+  - rewrite Lf. symmetry. apply lastblock_length; assumption.
+  - intros k. rewrite Nf. unfold lastblock. rewrite nth_skipn, Ls, Ns. apply mean_fat_sat; assumption.
+Qed.
+
 End Uniform.
